@@ -529,6 +529,7 @@ def headers_for(tier):
     # {T*, const T*, T*const, const T*const, T*&, const T*&, T[8], const T[8]} (+ typedef of each)
     # x role {parameter, return, data member}
     hs = [("plain", plain), ("nasty", nasty), ("strings", L.GROUPS["strings"]),
+          ("tdepth", L.GROUPS["tdepth"]),      # typedef chains of depth 0..3 before array/char*/enum/class
           ("remaps", ["handles", "stringptrs"]), ("adv-bytevector", ["bytevector"])] + \
         [("adv-" + a, [a]) for a in L.GROUPS["adversarial"]]
     if tier == "thorough":
